@@ -136,6 +136,8 @@ class Eval:
         if n.id == 'n0':
             a = next((v for v in self.e.args.values() if isinstance(v, np.ndarray) and v.ndim == 2), None)
             if a is None:
+                if isinstance(self.e.args.get('n'), (int, np.integer)):
+                    return int(self.e.args['n'])       # generators: the size is the argument n
                 raise Skip('n0')
             return a.shape[0]
         if n.id in self.e.args:
